@@ -1253,67 +1253,39 @@ void BSSubIndexTriShape::Sync(NiStreamReversible& stream) {
 void BSSubIndexTriShape::notifyVerticesDelete(const std::vector<uint16_t>& vertIndices) {
 	BSTriShape::notifyVerticesDelete(vertIndices);
 
+	// Number of deleted triangles with an (old) index in [first, last)
+	auto countDeleted = [this](const uint32_t first, const uint32_t last) {
+		uint32_t count = 0;
+		for (auto& id : deletedTris)
+			if (id >= first && id < last)
+				count++;
+		return count;
+	};
+
+	// Shrinks and moves the (old) triangle range that starts at "startIndex" with "numPrimitives" triangles:
+	// deleted triangles inside of the range shorten it, deleted triangles in front of it move it down.
+	// Both are counted against the old range, which keeps the layout of segments and sub segments
+	// (including triangles that belong to a segment but to none of its sub segments).
+	auto refitRange = [&countDeleted](uint32_t& startIndex, uint32_t& numPrimitives) {
+		const uint32_t first = startIndex / 3;
+		const uint32_t deletedInside = countDeleted(first, first + numPrimitives);
+		const uint32_t deletedBefore = countDeleted(0, first);
+		numPrimitives -= deletedInside;
+		startIndex -= deletedBefore * 3;
+	};
+
 	//Remove triangles from segments and re-fit lists
 	segmentation.numPrimitives -= static_cast<uint32_t>(deletedTris.size());
 	for (auto& segment : segmentation.segments) {
-		// Delete primitives
-		for (auto& id : deletedTris)
-			if (segment.numPrimitives > 0 && id >= segment.startIndex / 3
-				&& id < segment.startIndex / 3 + segment.numPrimitives)
-				segment.numPrimitives--;
+		refitRange(segment.startIndex, segment.numPrimitives);
 
-		// Align sub segments
 		for (auto& subSegment : segment.subSegments)
-			for (auto& id : deletedTris)
-				if (subSegment.numPrimitives > 0 && id >= subSegment.startIndex / 3
-					&& id < subSegment.startIndex / 3 + subSegment.numPrimitives)
-					subSegment.numPrimitives--;
+			refitRange(subSegment.startIndex, subSegment.numPrimitives);
 	}
 
-	// Align segments
-	size_t i = 0;
-	for (auto& segment : segmentation.segments) {
-		// Align sub segments
-		size_t j = 0;
-		for (auto& subSegment : segment.subSegments) {
-			if (j == 0)
-				subSegment.startIndex = segment.startIndex;
-
-			if (j + 1 >= segment.numSubSegments)
-				continue;
-
-			BSSITSSubSegment& nextSubSegment = segment.subSegments[j + 1];
-			nextSubSegment.startIndex = subSegment.startIndex + subSegment.numPrimitives * 3;
-			j++;
-		}
-
-		if (i + 1 >= segmentation.numSegments)
-			continue;
-
-		BSSITSSegment& nextSegment = segmentation.segments[i + 1];
-		nextSegment.startIndex = segment.startIndex + segment.numPrimitives * 3;
-
-		i++;
-	}
-
-	// Remove triangles from SSE segments
-	for (auto& segment : segments) {
-		for (auto& id : deletedTris)
-			if (segment.numTris > 0 && id >= segment.index / 3 && id < segment.index / 3 + segment.numTris)
-				segment.numTris--;
-	}
-
-	// Align SSE segments
-	i = 0;
-	for (auto& segment : segments) {
-		if (i + 1 >= numSegments)
-			continue;
-
-		BSGeometrySegmentData& nextSegment = segments[i + 1];
-		nextSegment.index = segment.index + segment.numTris * 3;
-
-		i++;
-	}
+	// Remove triangles from SSE segments and re-fit list
+	for (auto& segment : segments)
+		refitRange(segment.index, segment.numTris);
 }
 
 void BSSubIndexTriShape::SetDefaultSegments() {
